@@ -353,6 +353,24 @@ def _rewrite_block(body: List[ast.stmt], in_function: bool, stats: Dict[str, int
             stats["yieldfrom"] += 1
             body[i] = inner
             continue
+        if in_function and isinstance(st, (ast.Assign, ast.Return)) and isinstance(st.value, ast.Tuple) and (isinstance(st, ast.Return) or len(st.targets) == 1):
+            # `return (a if c else b), x`  ->  `if c: return a, x else: return b, x`  (elements before the conditional one are atomic)
+            idxs = [k for k, e in enumerate(st.value.elts) if isinstance(e, ast.IfExp)]
+            if len(idxs) == 1 and all(_atomic(e) for e in st.value.elts[:idxs[0]]):
+                import copy as _copy
+                k = idxs[0]
+                ife = st.value.elts[k]
+
+                def variant(repl):
+                    s2 = _copy.deepcopy(st)
+                    s2.value.elts[k] = _copy.deepcopy(repl)
+                    return s2
+                new = ast.If(test=ife.test, body=[variant(ife.body)], orelse=[variant(ife.orelse)])
+                ast.copy_location(new, st)
+                ast.fix_missing_locations(new)
+                stats["ifexp"] += 1
+                body[i] = new
+                continue
         if in_function and isinstance(st, (ast.Assign, ast.Return)) and isinstance(st.value, ast.IfExp) and (isinstance(st, ast.Return) or len(st.targets) == 1):
             # statement-level conditional expression -> if statement (the interpreter forks on the test like on any other)
             v = st.value
@@ -409,9 +427,8 @@ def _rewrite_block(body: List[ast.stmt], in_function: bool, stats: Dict[str, int
                 (isinstance(st.body[0], ast.Continue) and loop_body) or
                 (isinstance(st.body[0], ast.Return) and st.body[0].value is None and fn_body and fn is not None and not getattr(fn, "_returns_value", True))):
             # guard with a bare exit: `if c: continue ; REST`  ->  `if not c: REST`   (REST runs to the end of the loop body / function)
-            from .canon import positive_test
-            pos = positive_test(st.test)
-            neg = pos if pos is not None else ast.UnaryOp(op=ast.Not(), operand=st.test)
+            from .canon import negate
+            neg = negate(st.test)
             new = ast.If(test=neg, body=body[i + 1:], orelse=[])
             ast.copy_location(new, st)
             ast.fix_missing_locations(new)
@@ -675,7 +692,35 @@ def fold_constants(repo) -> int:
         m.constants_folded = count[0]
         total += count[0]
     total += _unused_new_parameters(repo, table)
+    total += _compiled_regex_calls(repo)
     return total
+
+
+_RE_METHODS = {"findall", "finditer", "match", "search", "sub", "subn", "split", "fullmatch"}
+
+
+def _compiled_regex_calls(repo) -> int:
+    """`P.findall(s)` where P is a module-level `re.compile(<pattern>)` object  ->  `re.findall(<pattern>, s)`"""
+    n = 0
+    for m in repo.modules.values():
+        for c in ast.walk(m.tree):
+            if isinstance(c, ast.Call) and isinstance(c.func, ast.Attribute) and c.func.attr in _RE_METHODS and isinstance(c.func.value, ast.Name):
+                try:
+                    k, v = repo.resolve(m, c.func.value.id)
+                except Exception:
+                    continue
+                if k != "var":
+                    continue
+                dm, dn = v
+                vals = dm.assigns.get(dn, [])
+                if len(vals) == 1 and isinstance(vals[0], ast.Call) and isinstance(vals[0].func, ast.Attribute) and vals[0].func.attr == "compile" \
+                        and isinstance(vals[0].func.value, ast.Name) and vals[0].func.value.id == "re" and len(vals[0].args) == 1 and not vals[0].keywords:
+                    import copy as _copy
+                    c.func = ast.copy_location(ast.Attribute(value=ast.Name(id="re", ctx=ast.Load()), attr=c.func.attr, ctx=ast.Load()), c.func)
+                    c.args = [_copy.deepcopy(vals[0].args[0])] + c.args
+                    ast.fix_missing_locations(c)
+                    n += 1
+    return n
 
 
 def _unused_new_parameters(repo, table) -> int:
